@@ -13,9 +13,12 @@ import (
 	"fmt"
 	"os"
 	"path/filepath"
+	"reflect"
 	"regexp"
 	"sort"
 	"strings"
+	"sync"
+	"sync/atomic"
 	"time"
 
 	"github.com/cuteLittleDevil/go-jt808/protocol/jt1078"
@@ -50,6 +53,8 @@ func (r *modelRecv) decode(body []byte) error {
 	m.Body = body
 	return r.h.Parse(m)
 }
+
+func (r *modelRecv) obj() any { return r.h }
 
 func (r *modelRecv) snap() string {
 	b, err := json.Marshal(r.h)
@@ -103,6 +108,7 @@ func (l *extLocation) String() string {
 
 type frameRecv struct{ m *jt808.JTMessage }
 
+func (r *frameRecv) obj() any              { return r.m }
 func (r *frameRecv) decode(b []byte) error { return r.m.Decode(b) }
 func (r *frameRecv) snap() string {
 	return fmt.Sprintf("%d %v %x %s", r.m.Header.ID, *r.m.Header.Property, r.m.Body, r.m.Header.String())
@@ -112,6 +118,8 @@ type rtpRecv struct {
 	p    *jt1078.Packet
 	rest []byte
 }
+
+func (r *rtpRecv) obj() any { return r.p }
 
 func (r *rtpRecv) decode(b []byte) error {
 	rest, err := r.p.Decode(b)
@@ -219,6 +227,38 @@ type oc struct {
 	timeout bool
 	err     bool
 	snap    string
+}
+
+// collectStrings: every string value reachable from v (a string is immutable: whatever is decoded into one is the caller's for good)
+func collectStrings(v reflect.Value, depth int, out *[]string) {
+	if depth > 8 || !v.IsValid() {
+		return
+	}
+	switch v.Kind() {
+	case reflect.String:
+		*out = append(*out, strings.Clone(v.String()))
+	case reflect.Pointer, reflect.Interface:
+		if !v.IsNil() {
+			collectStrings(v.Elem(), depth+1, out)
+		}
+	case reflect.Struct:
+		for i := 0; i < v.NumField(); i++ {
+			collectStrings(v.Field(i), depth+1, out)
+		}
+	case reflect.Slice, reflect.Array:
+		if v.Kind() == reflect.Slice && v.Type().Elem().Kind() == reflect.Uint8 {
+			return
+		}
+		for i := 0; i < v.Len() && i < 300; i++ {
+			collectStrings(v.Index(i), depth+1, out)
+		}
+	case reflect.Map:
+		keys := v.MapKeys()
+		sort.Slice(keys, func(i, j int) bool { return fmt.Sprint(keys[i]) < fmt.Sprint(keys[j]) })
+		for _, k := range keys {
+			collectStrings(v.MapIndex(k), depth+1, out)
+		}
+	}
 }
 
 func runDecode(r receiver, body []byte) oc {
@@ -379,7 +419,11 @@ func init() {
 				// a plain frame must not show in how the plain frame is decoded
 				for ver := 0; ver < 2; ver++ {
 					bodies = append(bodies, buildFrame(hdrSpec{id: 0x0801, serial: 7, ver: ver, verbyte: 1, frag: 1, total: 3, no: 2, phone: randPhone(r, ver), body: []byte{1, 2, 3}}),
-						buildFrame(hdrSpec{id: 0x0002, serial: 8, ver: ver, verbyte: 1, phone: randPhone(r, ver)}))
+						buildFrame(hdrSpec{id: 0x0002, serial: 8, ver: ver, verbyte: 1, phone: randPhone(r, ver)}),
+						// package words a terminal should not send, and the decoder accepts: total 0, number 0, number beyond the total
+						buildFrame(hdrSpec{id: 0x0200, serial: 9, ver: ver, verbyte: 1, frag: 1, total: 0, no: 0, phone: randPhone(r, ver), body: []byte{4}}),
+						buildFrame(hdrSpec{id: 0x0200, serial: 10, ver: ver, verbyte: 1, frag: 1, total: 0, no: 5, phone: randPhone(r, ver), body: []byte{5}}),
+						buildFrame(hdrSpec{id: 0x0200, serial: 11, ver: ver, verbyte: 1, frag: 1, total: 65535, no: 65535, phone: randPhone(r, ver), body: []byte{6}}))
 				}
 			case "jt1078.Decode": // one short packet per data type (video I/P/B, audio, transparent, reserved)
 				want := []int{0, 1, 2, 3, 4, 9}
@@ -545,6 +589,22 @@ func init() {
 					fmt.Sprintf("exact capacity vs spare capacity: %s | %s (body %x)", diffWindow(base.String(), t1.String()), diffWindow(base.String(), t2.String()), []byte(c.Body)))
 				return nil
 			}
+			// the strings of a decoded value do not change when the caller re-uses the buffer it decoded from
+			if ob, ok := tg.mk(v, d).(interface{ obj() any }); ok && !base.err && n%2 == 0 {
+				r2 := ob.(receiver)
+				in2 := exact(c.Body)
+				if o2 := runDecode(r2, in2); !o2.err && o2.panic_ == "" && !o2.timeout {
+					var s1, s2 []string
+					collectStrings(reflect.ValueOf(ob.obj()), 0, &s1)
+					for k := range in2 {
+						in2[k] ^= 0xff
+					}
+					collectStrings(reflect.ValueOf(ob.obj()), 0, &s2)
+					if strings.Join(s1, "\x00") != strings.Join(s2, "\x00") {
+						report(fmt.Sprintf("decoded-string-changes-with-the-callers-buffer %s", key), diffWindow(strings.Join(s1, "|"), strings.Join(s2, "|")))
+					}
+				}
+			}
 			if heldR != nil {
 				now := ""
 				if p := protect(func() { now = heldR.snap() }); p != "" {
@@ -602,6 +662,52 @@ func init() {
 		})
 		if err != nil {
 			die(err)
+		}
+		// decoders are functions of their input also when several goroutines decode at once (every connection decodes on its own
+		// goroutine): the valid frames and packets of the seeds, decoded concurrently, give what they give one at a time
+		for _, tn := range []string{"jt808.Decode", "jt1078.Decode"} {
+			var inputs [][]byte
+			var want []string
+			for k, bodies := range seedsOf {
+				if !strings.HasPrefix(k, tn+"/") {
+					continue
+				}
+				for _, b := range bodies {
+					if o := runDecode(byName[tn].mk(consts.JT808Protocol2013, consts.ActiveSafetyJS), exact(b)); !o.err && o.panic_ == "" && !o.timeout {
+						inputs, want = append(inputs, b), append(want, o.snap)
+					}
+				}
+			}
+			if len(inputs) < 2 {
+				continue
+			}
+			var wg sync.WaitGroup
+			var bad atomic.Value
+			for g := 0; g < 8; g++ {
+				wg.Add(1)
+				go func(g int) {
+					defer wg.Done()
+					for i := 0; i < 4000 && bad.Load() == nil; i++ {
+						k := (i*7 + g) % len(inputs)
+						r := byName[tn].mk(consts.JT808Protocol2013, consts.ActiveSafetyJS)
+						var got string
+						if p := protect(func() {
+							if err := r.decode(exact(inputs[k])); err == nil {
+								got = r.snap()
+							}
+						}); p != "" {
+							got = "panic:" + p
+						}
+						if got != want[k] {
+							bad.Store(fmt.Sprintf("input %x: alone %s, among concurrent decodes %s", inputs[k], diffWindow(want[k], got), ""))
+						}
+					}
+				}(g)
+			}
+			wg.Wait()
+			if b := bad.Load(); b != nil {
+				out.put(mismatch{"concurrent-decodes-differ " + tn, b.(string), c03Case{T: tn, Ver: 1, Dialect: 1, Body: inputs[0], Kind: "seed"}})
+			}
 		}
 		out.put(summary{Summary: true, Cases: n, Distinct: len(distinct), Classes: classes, Samples: samples})
 	}
